@@ -93,8 +93,20 @@ claim("C15", "other",
       "Trusted: clang 14 + tbfscan; structured control flow (no goto) in the analysed functions - an unrecognised construct is exit 2.",
       "acquire/release pairing, ownership typestate and lifetime rules over the clang AST", "DESIGN.md §2 C15")
 
+claim("C10", "other",
+      "Consistency clauses of the periodic top tree (both the single-tree and the target/source executor): (1) for each branch of the repetition-count function (-1, 0, >=1 extra levels) the interval reported by the library satisfies hi - lo + 1 == count as an identity in p = 2^n, contains the central box, and the total is count^Dim; "
+      "(2) for every transfer window filled into a stack array, (window width)^Dim - (core)^Dim equals the extent the array is declared with (7^Dim-3^Dim, and getNbInteractionsPerCell() = 6^Dim-3^Dim extracted from the ordering class), so the fill neither overruns nor drops images of the window; (3) the two executors agree on formulas, windows, virtual-level loops and box-extension functions. "
+      "That every image contributes exactly once and is displaced by the right multiple of the box width (counting / numerics) is NOT decided.",
+      "Trusted: clang 14 + tbfscan, sympy identities; the three-branch shape of the formulas (anything else is exit 2).",
+      "branch-wise polynomial identities + window-vs-extent agreement + sibling summary comparison", "DESIGN.md §2 C10")
+claim("C08", "other",
+      "Necessary structural clause of grouping independence: batches are cut at group boundaries, so a target may receive several partial operator calls and every operator must ACCUMULATE. For the 3 shipped kernels x 8 operators every store that reaches an output parameter - directly, through local aliases, or through any helper the output is handed to (followed interprocedurally down to FMemUtils / FBlas / the interpolator / the FFT handler / FP2PR) - is a compound += or -=, the x.real(x.real()+e) idiom, or the single recompute-from-accumulated-input (DFT of the same cell's accumulated expansion); overwriting helpers (copy/set/fill) are rejected. "
+      "Plus: the automatic block-size estimate is clamped to >= 1. Equality of the multiset of elementary interactions between two groupings is counting and NOT decided.",
+      "Trusted: clang 14 + tbfscan, the frozen operator role table (which parameter is the output), callee resolution by name and arity inside the library.",
+      "interprocedural store-form (accumulate-only) effect analysis over the clang AST", "DESIGN.md §2 C08")
+
 _todo = "check not built yet in this round (see DESIGN.md §7 build order)"
-for p in ["C08","C10"]:
+for p in []:
     NA[p] = _todo
 NA["C01"] = "exactly-once is a counting statement over all particle sets, heights, dimensions and groupings; no lint/effect/type argument bounds the list-builder arithmetic. Structural prerequisites are decided under C02/C03/C08/C11/C12."
 NA["C04"] = "bound on a floating-point truncation error over all positions/heights/orders: nothing about it is visible in the shape of the code (accumulate clause is under C08, code conventions under C11)."
